@@ -1154,10 +1154,12 @@ class Moment(ArrayReduction):
 
     @property
     def aggregate_kwargs(self):
+        # the list drops the name of the columns, which is in the meta
+        cols = self.frame.columns if self.frame.ndim == 1 else self.frame._meta.columns
         return dict(
             order=self.order,
             meta=self._meta,
-            index=self.frame.columns,
+            index=cols,
         )
 
     @classmethod
